@@ -64,6 +64,9 @@ def run(rep, tier, rng):
     # 1-d vocabularies; a dynamic operand reinterpreted without a target vocabulary (type: any vocabulary of dimension 16);
     # a vocabulary-less pointer whose length is next to 16
     operands += [("KDyn", 5, None), ("KDyn", 6, None), ("KSp", 6, None), ("KDyn", None, "reint-none"), ("KSp", None, "hrr17")]
+    # special pointers obtained from a vocabulary by name belong to that vocabulary; a connector declared again with another
+    # vocabulary has the vocabulary of the last declaration
+    operands += [("KSp", 0, "special-Identity"), ("KSp", 1, "special-Zero"), ("KSp", 0, "parse-Identity"), ("KDyn", 1, "redeclared")]
     operands += [("KSp", None, "hrr16"), ("KSp", None, "vtb16"), ("KSp", None, "hrr32"), ("KSym", None, None),
                  ("KDynScalar", None, None), ("KNum", None, "int"), ("KNum", None, "np.float64"), ("KArr", None, 16)]
 
@@ -74,6 +77,14 @@ def run(rep, tier, rng):
             base_sym = PointerSymbol("A", TVocabulary(vocs[vi]))
             return {"linv": lambda: base_sym.linv(), "rinv": lambda: base_sym.rinv(), "inv": lambda: ~base_sym, "neg": lambda: -base_sym,
                     "normalized": lambda: base_sym.normalized()}[ex]()
+        if k == "KSp" and ex in ("special-Identity", "special-Zero"):
+            return vocs[vi][ex.split("-")[1]]
+        if k == "KSp" and ex == "parse-Identity":
+            return vocs[vi].parse("Identity")
+        if k == "KDyn" and ex == "redeclared":
+            st_ = spa.State(vocs[0] if vi != 0 else vocs[1])
+            nengo.Network.context[-1].declare_output(st_.output, vocs[vi])
+            return as_ast_node(st_.output)
         if k == "KDyn" and ex == "reint-none":
             return spa.reinterpret(as_ast_node(spa.State(vocs[0])))
         if k == "KDyn" and ex in ("neg", "inv"):
